@@ -526,3 +526,245 @@ Proof.
   destruct (product_run_is_life_history unicast tbl S mf dbg ls yf ah Hok H) as (Hl & _ & Hd & _).
   destruct (life_never_panics unicast tbl S mf dbg _ Hl Hs) as [d E]. exists d. rewrite Hd. exact E.
 Qed.
+
+(* ------------------------------------------------------------ the statuses TestFinished carries
+   The dispatcher collects the attempts of AttemptFailedWillRetry in running_tests[t] and reports
+   them, followed by the attempt of Finished, in TestFinished: for a test whose events form a
+   protocol trace these are the attempts of that trace -- for a unit-life machine, its own log. *)
+Definition past_inv (s : dst) (t : tid) (p : phase) (A : list attempt) : Prop :=
+  match s with
+  | Panicked => True
+  | Live d =>
+      match p with
+      | PIdle => A = []
+      | PRunning _ | PDelay _ | PRefusedRetry _ => lookup t (d_running d) = Some A
+      | _ => True
+      end
+  end.
+
+Lemma in_begin_cancel_finished d reason ev d' evs r t sts st rn cs :
+  begin_cancel d reason ev = (d', evs, r) -> In (ETestFinished t sts st rn cs) evs -> False.
+Proof.
+  unfold begin_cancel. intros H Hin. destruct ev as [| |[q|]].
+  1,2,3: destruct (cancel_lt (d_cancel d) reason); injection H as <- <- <-; cbn [In] in Hin;
+    [destruct Hin as [Hin|Hin]; [discriminate|contradiction]|contradiction].
+  injection H as <- <- <-. cbn [In] in Hin. destruct Hin as [Hin|Hin]; [discriminate|contradiction].
+Qed.
+
+(* a step that is not Finished t does not report TestFinished t; it changes running_tests[t] only
+   as the protocol event of t it handles says *)
+Lemma past_step c t d e s' evs rsp p A :
+  dstep_live d e = (s', evs, rsp) -> past_inv (Live d) t p A ->
+  match event_test e with
+  | Some t' =>
+      if t' =? t then
+        forall p', Model.Unit.ustep c t p e (r_hs rsp) = Some p' ->
+          past_inv s' t p' (A ++ trace_attempts [(e, r_hs rsp)]) /\
+          (forall sts st rn cs, In (ETestFinished t sts st rn cs) evs ->
+             st_all sts = A ++ trace_attempts [(e, r_hs rsp)] /\ p' = PFinished)
+      else past_inv s' t p A /\ (forall sts st rn cs, ~ In (ETestFinished t sts st rn cs) evs)
+  | None => past_inv s' t p A /\ (forall sts st rn cs, ~ In (ETestFinished t sts st rn cs) evs)
+  end.
+Proof.
+  intros Hd Hinv.
+  assert (Hkeep : forall d', d_running d' = d_running d -> past_inv (Live d') t p A).
+  { intros d' E. unfold past_inv in *. rewrite E. exact Hinv. }
+  assert (Hfc : forall d2 pre cnd reason ev,
+            finish_with_cancel d2 pre cnd reason ev = (s', evs, rsp) ->
+            exists d3 evs2, s' = Live d3 /\ d_running d3 = d_running d2 /\ evs = pre ++ evs2 /\
+                            forall sts st rn cs, ~ In (ETestFinished t sts st rn cs) evs2).
+  { intros d2 pre cnd reason ev H. unfold finish_with_cancel in H. destruct cnd.
+    - destruct (begin_cancel d2 reason ev) as [[d3 evs2] r] eqn:Eb. injection H as <- <- _.
+      exists d3, evs2. split; [reflexivity|]. split.
+      + unfold begin_cancel in Eb.
+        destruct ev as [| |[q|]]; destruct (cancel_lt (d_cancel d2) reason); injection Eb as <- _ _; reflexivity.
+      + split; [reflexivity|]. intros sts st rn cs Hin.
+        exact (in_begin_cancel_finished _ _ _ _ _ _ _ _ _ _ _ Eb Hin).
+    - injection H as <- <- _. exists d2, []. rewrite app_nil_r. repeat split. intros sts st rn cs []. }
+  destruct e as [s0|s0 wt|s0 r0|t0|t0 no tot wt|t0 a|t0 no tot|t0 a|t0|ev| | |k| | |];
+    cbn [event_test]; cbn [dstep_live] in Hd.
+  - (* ScriptStarted *)
+    destruct (is_some (d_cancel d)); [injection Hd as <- <- _; split; [exact Hinv|intros ? ? ? ? []]|].
+    destruct (is_some (d_script d) && d_dbg d); injection Hd as <- <- _.
+    + split; [exact I|intros ? ? ? ? []].
+    + split; [apply Hkeep; reflexivity|]. intros ? ? ? ? [H|[]]; discriminate.
+  - injection Hd as <- <- _. split; [exact Hinv|]. intros ? ? ? ? [H|[]]; discriminate.
+  - (* ScriptFinished *)
+    destruct (negb (is_some (d_script d)) && d_dbg d);
+      [injection Hd as <- <- _; split; [exact I|intros ? ? ? ? []]|].
+    destruct (Hfc _ _ _ _ _ Hd) as (d3 & evs2 & -> & Er & -> & Hno).
+    split; [apply Hkeep; rewrite Er; reflexivity|].
+    intros sts st rn cs [H|H]; [discriminate|exact (Hno _ _ _ _ H)].
+  - (* Started *)
+    destruct (N.eqb_spec t0 t) as [->|Hne].
+    + intros p' Hu. cbn [trace_attempts]. rewrite app_nil_r. cbn [Model.Unit.ustep] in Hu.
+      destruct (memb t (c_sel c)); [|discriminate].
+      destruct (is_some (d_cancel d)).
+      * injection Hd as <- <- <-. cbn [r_hs mk_resp] in Hu.
+        destruct p; try discriminate. injection Hu as <-. split; [exact I|intros ? ? ? ? []].
+      * destruct (lookup t (d_running d)) eqn:El; injection Hd as <- <- <-; cbn [r_hs mk_resp] in Hu.
+        -- split; [exact I|intros ? ? ? ? []].
+        -- destruct p; try discriminate. injection Hu as <-. cbn [past_inv] in *. subst A.
+           split; [cbn [d_running set_running]; apply lookup_cons_eq|].
+           intros ? ? ? ? [H|[]]; discriminate.
+    + destruct (is_some (d_cancel d)); [injection Hd as <- <- _; split; [exact Hinv|intros ? ? ? ? []]|].
+      destruct (lookup t0 (d_running d)); injection Hd as <- <- _.
+      * split; [exact I|intros ? ? ? ? []].
+      * split; [|intros ? ? ? ? [H|[]]; discriminate].
+        unfold past_inv in *. cbn [d_running set_running]. rewrite lookup_cons_neq by auto. exact Hinv.
+  - (* Slow *)
+    injection Hd as <- <- <-.
+    destruct (N.eqb_spec t0 t) as [->|Hne].
+    + intros p' Hu. cbn [trace_attempts]. rewrite app_nil_r. cbn [Model.Unit.ustep] in Hu.
+      destruct p as [|k0| | | | |]; try discriminate.
+      destruct ((no =? k0) && (tot =? c_total c t)); [|discriminate]. injection Hu as <-.
+      split; [exact Hinv|]. intros ? ? ? ? [H|[]]; discriminate.
+    + split; [exact Hinv|]. intros ? ? ? ? [H|[]]; discriminate.
+  - (* AttemptFailedWillRetry *)
+    destruct (N.eqb_spec t0 t) as [->|Hne].
+    + intros p' Hu. cbn [trace_attempts]. cbn [Model.Unit.ustep] in Hu.
+      destruct p as [|k0| | | | |]; try discriminate.
+      destruct ((a_no a =? k0) && (a_total a =? c_total c t) && (k0 <? c_total c t)
+                && negb (is_success (a_res a))); [|discriminate].
+      injection Hu as <-. cbn [past_inv] in Hinv. rewrite Hinv in Hd. injection Hd as <- <- _.
+      split; [|intros ? ? ? ? [H|[]]; discriminate].
+      cbn [past_inv d_running set_running]. apply (lookup_update_eq t _ _ A). exact Hinv.
+    + destruct (lookup t0 (d_running d)) as [past|]; injection Hd as <- <- _.
+      * split; [|intros ? ? ? ? [H|[]]; discriminate].
+        unfold past_inv in *. cbn [d_running set_running]. rewrite lookup_update_neq by auto. exact Hinv.
+      * split; [exact I|intros ? ? ? ? []].
+  - (* RetryStarted *)
+    assert (Hs' : s' = Live d /\ forall sts st rn cs, ~ In (ETestFinished t sts st rn cs) evs).
+    { destruct (is_some (d_cancel d)); injection Hd as <- <- _; (split; [reflexivity|]).
+      - intros ? ? ? ? [].
+      - intros ? ? ? ? [H|[]]; discriminate. }
+    destruct Hs' as [-> Hno].
+    destruct (N.eqb_spec t0 t) as [->|Hne]; [|split; [exact Hinv|exact Hno]].
+    intros p' Hu. cbn [trace_attempts]. rewrite app_nil_r. cbn [Model.Unit.ustep] in Hu.
+    destruct p as [| |k0| | | |]; try discriminate.
+    destruct ((no =? k0 + 1) && (tot =? c_total c t)); [|discriminate].
+    split; [|intros sts st rn cs H; exfalso; exact (Hno _ _ _ _ H)].
+    destruct (r_hs rsp); try discriminate; injection Hu as <-; exact Hinv.
+  - (* Finished *)
+    destruct (N.eqb_spec t0 t) as [->|Hne].
+    + intros p' Hu. cbn [trace_attempts]. cbn [Model.Unit.ustep] in Hu.
+      destruct p as [|k0| | | | |]; try discriminate.
+      destruct ((a_no a =? k0) && (a_total a =? c_total c t)
+                && (is_success (a_res a) || (c_total c t <=? k0))); [|discriminate].
+      injection Hu as <-. cbn [past_inv] in Hinv. rewrite Hinv in Hd.
+      destruct (Hfc _ _ _ _ _ Hd) as (d3 & evs2 & -> & Er & -> & Hno).
+      split; [exact I|].
+      intros sts st rn cs [H|H]; [|exfalso; exact (Hno _ _ _ _ H)].
+      injection H as <- _ _ _. split; reflexivity.
+    + destruct (lookup t0 (d_running d)) as [past|];
+        [|injection Hd as <- <- _; split; [exact I|intros ? ? ? ? []]].
+      destruct (Hfc _ _ _ _ _ Hd) as (d3 & evs2 & -> & Er & -> & Hno).
+      split.
+      * unfold past_inv in *. rewrite Er. cbn [d_running set_stats set_running].
+        rewrite lookup_remove_neq by auto. exact Hinv.
+      * intros sts st rn cs [H|H]; [injection H as E; congruence|exact (Hno _ _ _ _ H)].
+  - (* Skipped *)
+    injection Hd as <- <- _.
+    destruct (N.eqb_spec t0 t) as [->|Hne].
+    + intros p' Hu. cbn [trace_attempts]. rewrite app_nil_r. cbn [Model.Unit.ustep] in Hu.
+      destruct (memb t (c_unsel c)); [|discriminate]. destruct p; try discriminate. injection Hu as <-.
+      split; [exact I|]. intros ? ? ? ? [H|[]]; discriminate.
+    + split; [apply Hkeep; reflexivity|]. intros ? ? ? ? [H|[]]; discriminate.
+  - (* SigShutdown *)
+    destruct (d_sig d) as [[|]|].
+    + destruct (begin_cancel (set_sig d (Some STwice)) (event_to_cancel_reason ev)
+                             (CeSignal (to_request STwice ev))) as [[d2 evs2] r] eqn:Eb.
+      injection Hd as <- <- _. split.
+      * apply Hkeep. unfold begin_cancel in Eb. cbn [to_request] in Eb. injection Eb as <- _ _. reflexivity.
+      * intros sts st rn cs Hin. exact (in_begin_cancel_finished _ _ _ _ _ _ _ _ _ _ _ Eb Hin).
+    + injection Hd as <- <- _. split; [exact I|intros ? ? ? ? []].
+    + destruct (begin_cancel (set_sig d (Some SOnce)) (event_to_cancel_reason ev)
+                             (CeSignal (to_request SOnce ev))) as [[d2 evs2] r] eqn:Eb.
+      injection Hd as <- <- _. split.
+      * apply Hkeep. unfold begin_cancel in Eb. cbn [to_request] in Eb.
+        destruct (cancel_lt (d_cancel (set_sig d (Some SOnce))) (event_to_cancel_reason ev));
+          injection Eb as <- _ _; reflexivity.
+      * intros sts st rn cs Hin. exact (in_begin_cancel_finished _ _ _ _ _ _ _ _ _ _ _ Eb Hin).
+  - (* SigStop *)
+    destruct (d_paused d); injection Hd as <- <- _.
+    + split; [exact Hinv|intros ? ? ? ? []].
+    + split; [apply Hkeep; reflexivity|]. intros ? ? ? ? [H|[]]; discriminate.
+  - (* SigCont *)
+    destruct (d_paused d); injection Hd as <- <- _.
+    + split; [apply Hkeep; reflexivity|]. intros ? ? ? ? [H|[]]; discriminate.
+    + split; [exact Hinv|intros ? ? ? ? []].
+  - injection Hd as <- <- _. split; [exact Hinv|intros ? ? ? ? []].
+  - injection Hd as <- <- _. split; [exact Hinv|intros ? ? ? ? []].
+  - injection Hd as <- <- _. split; [exact Hinv|]. intros ? ? ? ? [H|[]]; discriminate.
+  - (* ReportCancel *)
+    destruct (begin_cancel d ReportError CeReport) as [[d2 evs2] r] eqn:Eb.
+    injection Hd as <- <- _. split.
+    + apply Hkeep. unfold begin_cancel in Eb.
+      destruct (cancel_lt (d_cancel d) ReportError); injection Eb as <- _ _; reflexivity.
+    + intros sts st rn cs Hin. exact (in_begin_cancel_finished _ _ _ _ _ _ _ _ _ _ _ Eb Hin).
+Qed.
+
+Lemma finished_statuses c t : forall h s p A pf,
+  past_inv s t p A ->
+  ufold c t p (filter (of_test t) (annotate s h)) = Some pf ->
+  forall sts st rn cs, In (ETestFinished t sts st rn cs) (out s h) ->
+    st_all sts = A ++ trace_attempts (filter (of_test t) (annotate s h)) /\ pf = PFinished.
+Proof.
+  induction h as [|e h IH]; intros s p A pf Hinv Hf sts st rn cs Hin; [destruct Hin|].
+  destruct s as [d|]; [|rewrite out_panicked in Hin; destruct Hin].
+  rewrite out_cons in Hin. rewrite annotate_cons in Hf |- *. unfold next_state in *. cbn [dstep] in *.
+  destruct (dstep_live d e) as [[s' evs] rsp] eqn:Ed. cbn [fst snd] in *.
+  pose proof (past_step c t d e s' evs rsp p A Ed Hinv) as Hstep.
+  cbn [filter] in Hf |- *. unfold of_test at 1 in Hf. unfold of_test at 1. cbn [fst] in Hf |- *.
+  destruct (event_test e) as [t'|] eqn:Ee.
+  - destruct (N.eqb_spec t' t) as [->|Hne].
+    + cbn [ufold] in Hf. rewrite Ee, N.eqb_refl in Hf.
+      destruct (Model.Unit.ustep c t p e (r_hs rsp)) as [p'|] eqn:Eu; [|discriminate].
+      destruct (Hstep p' eq_refl) as [Hinv' Hev].
+      change ((e, r_hs rsp) :: filter (of_test t) (annotate s' h))
+        with ([(e, r_hs rsp)] ++ filter (of_test t) (annotate s' h)).
+      rewrite trace_attempts_app, app_assoc.
+      apply in_app_or in Hin. destruct Hin as [Hin|Hin].
+      * destruct (Hev _ _ _ _ Hin) as [Hst ->].
+        assert (Hnil : filter (of_test t) (annotate s' h) = []).
+        { destruct (filter (of_test t) (annotate s' h)) as [|[e2 hs2] l] eqn:El; [reflexivity|exfalso].
+          pose proof (filter_of_test_events t (annotate s' h)) as Hall. rewrite El in Hall.
+          inversion Hall as [|? ? He2 _]; subst. cbn [fst] in He2.
+          cbn [ufold] in Hf. rewrite He2, N.eqb_refl, (terminal_rejects c t PFinished e2 hs2 eq_refl He2) in Hf.
+          discriminate. }
+        rewrite Hnil in Hf |- *. cbn [ufold] in Hf. injection Hf as <-.
+        cbn [trace_attempts]. rewrite app_nil_r. split; [exact Hst|reflexivity].
+      * exact (IH s' p' _ pf Hinv' Hf sts st rn cs Hin).
+    + destruct Hstep as [Hinv' Hno].
+      apply in_app_or in Hin. destruct Hin as [Hin|Hin]; [exfalso; exact (Hno _ _ _ _ Hin)|].
+      exact (IH s' p A pf Hinv' Hf sts st rn cs Hin).
+  - destruct Hstep as [Hinv' Hno].
+    apply in_app_or in Hin. destruct Hin as [Hin|Hin]; [exfalso; exact (Hno _ _ _ _ Hin)|].
+    exact (IH s' p A pf Hinv' Hf sts st rn cs Hin).
+Qed.
+
+(* Theorem: the ExecutionStatuses the dispatcher reports in TestFinished for a unit-life machine
+   are that machine's own log of attempts (oldest first), and the machine has sent Finished. *)
+Theorem finished_statuses_are_life_log unicast tbl S mf dbg h t es y sts st rn cs :
+  let c := cfg_of_lsystem S in
+  let ah := annotate (Live (init_for c mf dbg)) h in
+  memb t (ls_sel S) = true ->
+  lsys_run unicast tbl (ls_cfg S t) (lsys0 (ls_cfg S t)) es = LOk y ->
+  filter (of_test t) ah = project_life tbl (ls_fd S t) t (ls_cfg S t) es ->
+  In (ETestFinished t sts st rn cs) (out (Live (init_for c mf dbg)) h) ->
+  st_all sts = log_attempts (ls_fd S t) (ls_cfg S t) (y_log y) /\
+  st_all sts = map (attempt_of (ls_fd S t) (ls_cfg S t)) (rev (l_done (y_s y))) /\
+  l_ph (y_s y) = LFinishedP.
+Proof.
+  cbv zeta. intros Hsel Hrun Hproj Hin.
+  pose proof (life_refines_protocol_phase unicast tbl (ls_fd S t) t (ls_cfg S t) (cfg_of_lsystem S) es y
+                Hsel eq_refl Hrun) as Hph.
+  rewrite <- Hproj in Hph.
+  destruct (finished_statuses (cfg_of_lsystem S) t h (Live (init_for (cfg_of_lsystem S) mf dbg)) PIdle [] _
+              eq_refl Hph sts st rn cs Hin) as [Hst Hpf].
+  cbn [app] in Hst. rewrite Hproj in Hst.
+  destruct (projection_reports_life_log unicast tbl (ls_fd S t) t (ls_cfg S t) es y Hrun) as [H1 H2].
+  split; [rewrite Hst; exact H1|]. split; [rewrite Hst, H1; exact H2|].
+  unfold phase_of_lstate in Hpf. destruct (l_ph (y_s y)); try discriminate; try reflexivity.
+  destruct (l_k (y_s y) =? 0); discriminate.
+Qed.
